@@ -830,7 +830,7 @@ def oracle_here(pts, h):
 
 def main():
     ck = Check('C10')
-    ck.build_theories(['theories/Props/C10.vo', 'theories/Props/C10b.vo', 'theories/Corr/HullK.vo'])
+    ck.build_theories(['theories/Props/C10.vo', 'theories/Props/C10b.vo', 'theories/Props/C10c.vo', 'theories/Corr/HullK.vo'])
     # translator tie (T): the orientation test, convex_hull itself (sort key, early return, the condition / pop /
     # iteration of both chain loops, the assembly) and the Multi* / collection callers are regenerated from the
     # working tree and proved equal to HullM for all arguments; an abstention makes the GenEq lemmas fail (closed)
@@ -838,6 +838,7 @@ def main():
     ck.gen('HullGen.v', rep, 'HullGenEq.v')
     ck.props('Props/C10.v')
     ck.props('Props/C10b.v')     # the hull ring is strictly convex; point-in-polygon of the hull polygon = open convex hull
+    ck.props('Props/C10c.v')     # the domain assumption (no hull edge spans > 180 degrees) stated; D55 refuted on the composed model
     rng = ck.rng
     thorough = ck.tier == 'thorough'
     if thorough:       # independent re-check of the compiled property file and everything it depends on
@@ -1117,6 +1118,44 @@ def main():
                               'theorems': 'C10_hull_subset / C10_hull_contains / C10_hull_strict_left (on the coordinates for the requested k)'})
                 break
     ck.cov['curved_multi_hull_checks'] = curved_checks
+
+    # 8. WIDE sets: coordinates spread over more than half a turn of longitude (integer degrees, so every cross product is
+    #    exact).  The hull is a planar lon/lat notion; GeoPolygon reads an edge spanning more than 180 degrees of longitude
+    #    as crossing the antimeridian (ensure_edge_bounds inside is_counter_clockwise), so its right-hand-rule
+    #    normalisation turns such a hull CLOCKWISE - finding D55 (signature: the ring is the exact hull reversed and one
+    #    of its edges spans more than 180 degrees).  Anything else wrong with a wide hull is a violation.
+    d55 = [f for f in ck.findings if f['status'] == 'open' and f['signature'] == 'hull_edge_spans_over_180']
+    wide_n = wide_d55 = 0
+    wide_sets = [[tuple(p) for p in f['replay']['points']] for f in d55]
+    for _ in range(60 if ck.tier == 'quick' else 1500):
+        n = rng.randint(3, 12)
+        wide_sets.append(list({(rng.randint(-179, 179), rng.randint(-80, 80)) for _ in range(n)}))
+    for wi, pts_w in enumerate(wide_sets):
+        if len(pts_w) < 3:
+            continue
+        entry = 'MultiGeoPoint' if wi % 2 == 0 else 'FeatureCollection'
+        def hull_w():
+            gp = [GeoPoint(CO(float(x), float(y))) for x, y in pts_w]
+            h = MultiGeoPoint(gp).convex_hull() if entry == 'MultiGeoPoint' else FeatureCollection(gp).convex_hull
+            return [of_float_coord(c) for c in h.outline]
+        got = guarded(hull_w)
+        wide_n += 1
+        cl = [('raises', got[1])] if got[0] != 'Ok' else exact_hull_clauses(pts_w, got[1])
+        if cl and got[0] == 'Ok':
+            ring_w = got[1]
+            rev_ok = not exact_hull_clauses(pts_w, ring_w[::-1])
+            spans = any(abs(ring_w[i + 1][0] - ring_w[i][0]) > 180 for i in range(len(ring_w) - 1))
+            if rev_ok and spans and d55:
+                wide_d55 += 1
+                ck.known(d55[0])
+                continue
+        if cl:
+            ck.violation({'kind': 'property-fails-on-implementation', 'property_clauses_violated': cl,
+                          'case': {'k': 'wide-hull', 'entry': entry, 'points': pts_w, 'implementation': got},
+                          'theorems': 'C10_hull_subset / C10_hull_contains / C10_hull_strict_left / C10_hull_ccw'})
+            break
+    ck.cov['wide_hull_checks'] = wide_n
+    ck.cov['wide_hull_d55'] = wide_d55
 
     ck.cov['evaluations'] = len(cases) + perm_checks
     ck.cov['distinct_nontrivial'] = len(seen_nontrivial)
